@@ -391,13 +391,29 @@ def part_b(ctx, rs, per_cell):
                 one_fit(ctx, name, fam, kw, X, True, tag)
 
 
+def part_b_douglas(ctx, rs, reps):
+    """cold soft-binning: legal small temperatures and several cuts (memberships underflow to exactly 0.0)"""
+    tag = 1000
+    for r in range(reps):
+        for T in (0.01, 0.001):
+            for n_cuts in (2, 3):
+                n = int(rs.randint(6, 11))
+                X = fl.small_data(rs, n, 3)
+                g = fl.GEMINI_NAMES[(tag + r) % len(fl.GEMINI_NAMES)]
+                kw = {"n_clusters": 3, "max_iter": 3, "temperature": T, "n_cuts": n_cuts, "gemini": g,
+                      "solver": ["adam", "sgd"][tag % 2], "batch_size": [None, 1, 4][tag % 3]}
+                tag += 1
+                one_fit(ctx, "Douglas", "cold_binning", kw, X, False, tag)
+
+
 def run(ctx):
     fl.quiet()
     ctx.rule = ("(A) the 12 GEMINI configurations on degenerate predictions (exact one-hot, all in one cluster, constant, "
                 "uniform, duplicated rows, soft-max of logits x1000) x shapes incl. n=1 and K=1 x affinities of identical / "
                 "duplicated / x1000 / x1e-3 data: real code vs the Lean Float model (NaN/Inf tokens and values) and finiteness; "
                 "(B) 18 estimators x 11 degenerate families (X x1000, x1e-3, constant / zero / duplicated column, identical rows, "
-                "duplicated rows, K=n, K=1, batch_size=1, learning_rate=5) x rotating GEMINIs, fit + path (sparse models) with a "
+                "duplicated rows, K=n, K=1, batch_size=1, learning_rate=5; Douglas also with temperature 0.01/0.001 and 2-3 cuts) x "
+                "rotating GEMINIs, fit + path (sparse models) with a "
                 "finiteness monitor on every optimiser step; non-trivial = every case (all are degenerate by construction); "
                 "distinct = distinct (estimator, family, parameters, data)")
     ctx.assumptions.append("IEEE overflow/underflow cannot be proved in Lean (Float is opaque to the kernel): exhibited by this sweep only — partial")
@@ -406,6 +422,7 @@ def run(ctx):
     rs = np.random.RandomState(ctx.seed * 3571 + 17)
     part_a(ctx, rs, 2 if ctx.tier == "quick" else 12)
     part_b(ctx, rs, 2 if ctx.tier == "quick" else 13)
+    part_b_douglas(ctx, rs, 2 if ctx.tier == "quick" else 20)
     return ctx.finish()
 
 
